@@ -8,7 +8,7 @@ PID = "C14"
 MODULES = ["MmtkModel.Props.C14"]
 THEOREMS = ["Mmtk.Sched.parked_count_exact", "Mmtk.Sched.pool_count_exact", "Mmtk.Sched.no_lost_request",
             "Mmtk.Sched.last_parker_sleeps_only_when_idle", "Mmtk.Sched.no_stranded_packet",
-            "Mmtk.Sched.all_parked_no_work", "Mmtk.Sched.gc_never_sleeps_partial",
+            "Mmtk.Sched.all_parked_no_work", "Mmtk.Sched.gc_never_sleeps_partial", "Mmtk.Sched.designated_not_forgotten",
             "Mmtk.Sched.stranded_with_mutator_push", "Mmtk.Sched.reachable_inv", "Mmtk.Sched.step_invA",
             "Mmtk.Sched.step_invB", "Mmtk.Sched.step_invC"]
 # which failure keys belong to this property
@@ -40,8 +40,60 @@ def build_programs(rng, tier):
     return progs
 
 
+def goals_differential(rng, tier):
+    """Unit differential of the goal part of the model against the real `WorkerGoals` (hx_unit `goals`):
+    random histories of set/poll/current/complete/isreq + every history of length <= 4 over set/poll/complete."""
+    exe, err, _ = E.cargo_build("hx_unit", fs="fs_main")
+    if exe is None:
+        return [Violation("harness-build-failed", "hx_unit no longer builds: " + err[-800:], found_input=False,
+                          broken="harness build")], {}
+    cases = []
+    alphabet = ["goals set 0", "goals set 1", "goals set 2", "goals poll", "goals complete"]
+    import itertools
+    for n in range(1, 5):
+        for seq in itertools.product(alphabet, repeat=n):
+            cases.append(E.Case(["goals new", *seq, "goals current", "goals isreq 0", "goals isreq 1", "goals isreq 2", "goals poll"]))
+    for _ in range(200 if tier == "quick" else 3000):
+        ops = ["goals new"]
+        for _ in range(rng.randrange(1, 25)):
+            ops.append(rng.choice(alphabet + ["goals current", f"goals isreq {rng.randrange(3)}"]))
+        cases.append(E.Case(ops))
+    cases.append(E.Case(["goals new", "goals frobnicate", "goals set 7", "goals poll"]))       # malformed stream
+    impl = E.run_cases(exe, cases)
+    model = E.run_cases(E.model_exe(), cases)
+    viol = []
+    for c, a, b in zip(cases, impl, model):
+        d = E.first_diff(a, b)
+        if d is not None:
+            viol.append(Violation(f"correspondence:goals:{c.ops[d].split()[1] if d < len(c.ops) else '?'}",
+                                  f"model and WorkerGoals disagree on `{c.ops[d] if d < len(c.ops) else '?'}`: impl={a[d] if d < len(a) else '?'} model={b[d] if d < len(b) else '?'}",
+                                  c, a, b, False, broken="correspondence goals (Lean model ≠ WorkerGoals)"))
+            break
+        # the property's own statement on the implementation: poll returns the highest-priority requested goal
+        req = set()
+        for op, out in zip(c.ops, a):
+            t = op.split()
+            if t[1] == "new":
+                req = set()
+            elif t[1] == "set" and t[2].isdigit():
+                g = min(int(t[2]), 2)          # the wrapper maps every other number to StopForFork
+                if (out == "true") != (g not in req):
+                    viol.append(Violation("goals:set-request-result", f"set_request({g}) returned {out} with requests {sorted(req)}", c, a, b, True))
+                req.add(g)
+            elif t[1] == "poll":
+                want = str(min(req)) if req else "none"
+                if out != want:
+                    viol.append(Violation("goals:priority", f"poll_next_goal returned {out}, requests were {sorted(req)} (priority Gc > Shutdown > StopForFork)", c, a, b, True))
+                req.discard(min(req)) if req else None
+        if viol:
+            break
+    return viol, {"goals_unit_differential": {"cases": len(cases), "op_lines": sum(len(c.ops) for c in cases),
+                                              "exhaustive_up_to_length": 4}}
+
+
 def main(argv=None):
-    return S.run_check(PID, MODULES, THEOREMS, KEYS, build_programs, argv, META)
+    return S.run_check(PID, MODULES, THEOREMS, KEYS + ("goals:priority", "goals:set-request-result"), build_programs, argv, META,
+                       extra=goals_differential)
 
 
 if __name__ == "__main__":
